@@ -198,17 +198,9 @@ def child(job):
         if isinstance(c, type) and issubclass(c, A.Node) and "__setattr__" in c.__dict__ and "freeze" in c.__dict__:
             wrap_freeze(c)
 
-    # ---- record the AST objects the renderers use -------------------------------------------------
-    protos = []
-    orig_parse = M.parse
-
-    def rec_parse(*a, **k):
-        p = orig_parse(*a, **k)
-        protos.append(p)
-        return p
-
-    M.parse = rec_parse
-
+    # ---- pass 1: the plan as given, NOTHING retained between steps (compiled trees become garbage,
+    #      their addresses may be handed out again: what a long-lived process really does) ------------
+    import gc
     d = job["dir"]
     paths = []
     for gi, g in enumerate(job["group"]):
@@ -216,8 +208,9 @@ def child(job):
         write_files(sd, g["files"])
         paths.append(os.path.join(sd, g["main"]))
     steps = []
-    for si, (gi, lang, opt, quiet) in enumerate(job["plan"]):
-        od = os.path.join(d, "o%d" % si)
+
+    def one_step(si, gi, lang, opt, quiet, tag):
+        od = os.path.join(d, "o%s%d" % (tag, si))
         os.makedirs(od, exist_ok=True)
         err = None
         try:
@@ -227,7 +220,28 @@ def child(job):
             err = "fatal: " + str(e)
         except BaseException as e:   # noqa
             err = type(e).__name__ + ": " + str(e)[:200]
-        steps.append({"gi": gi, "lang": lang, "opt": opt, "hashes": hash_dir(od), "err": err})
+        steps.append({"gi": gi, "lang": lang, "opt": opt, "hashes": hash_dir(od), "err": err, "pass": tag})
+
+    for si, (gi, lang, opt, quiet) in enumerate(job["plan"]):
+        one_step(si, gi, lang, opt, quiet, "a")
+        gc.collect()
+
+    # ---- pass 2: every distinct step once more, now recording the AST objects the renderers use ----
+    protos = []
+    orig_parse = M.parse
+
+    def rec_parse(*a, **k):
+        p = orig_parse(*a, **k)
+        protos.append(p)
+        return p
+
+    M.parse = rec_parse
+    seen_steps = set()
+    for si, (gi, lang, opt, quiet) in enumerate(job["plan"]):
+        if (gi, lang, opt) in seen_steps:
+            continue
+        seen_steps.add((gi, lang, opt))
+        one_step(si, gi, lang, opt, quiet, "b")
 
     # ---- transparency audit ------------------------------------------------------------------
     def same(a, b, depth=0):
